@@ -8,7 +8,9 @@ package rebase
 //   io/rebase.Parse/post/records          one entry per <1>..<8> record, keyed by
 //                                         enzyme name, fields exactly as written
 //   io/rebase.Parse/post/suppliers        every <7> letter decoded to the name the
-//                                         file's own supplier table gives it
+//                                         file's own supplier table gives it;
+//                                         an empty <7> field gives no supplier,
+//                                         whatever the records before it have
 //   io/rebase.Export/post/json-roundtrip  json.Unmarshal(Export(m)) == m
 //
 // Inputs come from an independent format-31 writer (c16Write) that follows the
@@ -129,6 +131,9 @@ type c16Shape struct {
 	headerN   int
 	noFinalNL bool
 	lastRefs  int // 0: as drawn; 1: the last record has only its <8> line; 2: the last record has at least one reference continuation line
+	// pattern, when not empty, fixes which of the first records have supplier
+	// letters: 'L' = a non-empty <7> field, '-' = an empty one, any other letter = as drawn
+	pattern string
 }
 
 func c16NewDoc(rng *rand.Rand, sh c16Shape) c16Doc {
@@ -190,6 +195,22 @@ func c16NewDoc(rng *rand.Rand, sh c16Shape) c16Doc {
 			r.refs = []string{""}
 		}
 		d.recs = append(d.recs, r)
+	}
+	for i := 0; i < len(sh.pattern) && i < len(d.recs) && sh.nSupp > 0; i++ {
+		switch r := &d.recs[i]; {
+		case sh.pattern[i] == '-':
+			r.letters = ""
+		case sh.pattern[i] == 'L' && r.letters == "":
+			nl := 1 + rng.Intn(sh.maxLett)
+			if nl > sh.nSupp {
+				nl = sh.nSupp
+			}
+			pick := rng.Perm(sh.nSupp)[:nl]
+			sort.Ints(pick)
+			for _, p := range pick {
+				r.letters += string(d.suppliers[p].code)
+			}
+		}
 	}
 	d.noFinalNL = sh.noFinalNL
 	if n := len(d.recs); n > 0 {
@@ -363,8 +384,14 @@ func c16CheckDoc(rec, sup *verifRun, d c16Doc, text []byte, parse func([]byte) m
 			supClasses = []string{"supplier-differs"}
 		}
 	}
+	lettersBefore := false // an earlier record of the listing has supplier letters
 	for i := range d.recs {
 		r := &d.recs[i]
+		emptyClass := "empty-supplier-field"
+		if lettersBefore {
+			emptyClass = "empty-supplier-field-after-suppliers"
+		}
+		lettersBefore = lettersBefore || r.letters != ""
 		g, ok := got[r.name]
 		if !ok {
 			rec.Fail(recClass("entry-missing"), c16Describe(d, r), "no entry under key "+strconv.Quote(r.name))
@@ -396,6 +423,15 @@ func c16CheckDoc(rec, sup *verifRun, d c16Doc, text []byte, parse func([]byte) m
 			want = append(want, table[r.letters[k]])
 		}
 		if len(want) == 0 && len(g.CommercialAvailability) == 0 {
+			continue
+		}
+		if len(want) == 0 {
+			// an empty <7> field: the record has no commercial source. Shape: does
+			// the record come after one that has supplier letters?
+			if d.noFinalNL && nlOnly() {
+				emptyClass = "no-final-newline"
+			}
+			sup.Fail(emptyClass, c16Describe(d, r)+fmt.Sprintf(" (record %d of the listing)", i+1), fmt.Sprintf("empty <7> field decoded to %q, want no supplier", g.CommercialAvailability))
 			continue
 		}
 		if !reflect.DeepEqual(g.CommercialAvailability, want) {
@@ -584,13 +620,15 @@ func TestVerifC16(t *testing.T) {
 	if thorough {
 		nRandom = 6000
 	}
+	patterns := []string{"L-", "L--", "L---", "L-----", "L-L", "L-L-", "L--L--", "-L-", "--L--", "LL-", "LLL---", "L-xxxx-", "xL-x-x-L--"}
 	indents := []string{"                ", "                ", "\t", "\t\t", " ", "    ", "\t\t\t\t", "        "}
 	dom := "listings from an independent format-31 writer: every record count 0..300 once plus " + strconv.Itoa(nRandom) + " seeded listings with 0..300 records; 0..40 lines of header prose (blank and one-blank lines, indented lines, example supplier lines as in the real header, <ENZYME NAME>-style words, non-ASCII); " +
 		"supplier table of 0..26 lines (distinct code letters A..Z in alphabetical order, name of 1..4 words plus a date) indented with 16 spaces (distributed layout), 1, 4 or 8 spaces, or 1, 2 or 4 tabs; 0..15 distinct letters per <7> field, all from the table; " +
-		"any of <2>..<8> empty with probability 0/10/50 % per listing; 1..4 reference lines per record (only the first is tagged); every 9th listing read through Read on a temp file; " +
+		"any of <2>..<8> empty with probability 0/10/50 % per listing; " +
+		"empty <7> fields after supplier letters: besides what the 10 % and 50 % listings contain, 78 small listings (2..10 records, table of 1, 3 or 15 suppliers, 16 spaces or a tab) whose records follow the patterns " + strings.Join(patterns, " ") + " (L = <7> field with 1..15 letters, - = empty <7> field, x = either), i.e. an empty field directly after a record with letters and with 1..4 further empty-field records in between, before and after further records with letters; 1..4 reference lines per record (only the first is tagged); every 9th listing read through Read on a temp file; " +
 		"final newline: all of the above end with a blank line, and in addition listings that end WITHOUT a final newline right after the last record's <8> line or after its last reference continuation line (with no record: after the last supplier, title or header line): the small shapes (0..3 records, so single-record listings too, x 0..3 suppliers x spaces/tab) in both endings, every record count 0..300 once in each ending, and " + strconv.Itoa(nRandom/3) + " further seeded listings; plus the distributed sample data/rebase_test.txt against an independent reader"
 	rec := newVerifRun("C16", "io/rebase.Parse/post/records", dom+"; compared per record: key, name, isoschizomer list (an empty <2> field may come back as nil, [] or [\"\"]), recognition sequence, methylation site, organism, source, first reference; entry count; non-trivial = at least one record")
-	sup := newVerifRun("C16", "io/rebase.Parse/post/suppliers", dom+"; compared per record: CommercialAvailability == names of the <7> letters, in order, from the file's own table (nil and empty equal); non-trivial = at least one record with a supplier letter")
+	sup := newVerifRun("C16", "io/rebase.Parse/post/suppliers", dom+"; compared per record: CommercialAvailability == names of the <7> letters, in order, from the file's own table (nil and empty equal), so a record with an empty <7> field has no supplier whatever the records before it have (a supplier reported for an empty field is classed empty-supplier-field-after-suppliers when an earlier record of the listing has letters, else empty-supplier-field); non-trivial = at least one record with a supplier letter")
 	ex := newVerifRun("C16", "io/rebase.Export/post/json-roundtrip", "json.Unmarshal(Export(m)) == m (nil and empty lists equal) for m = the result of Parse on each listing above, and m = the map the listing describes built directly (suppliers decoded by the oracle), and the empty map; non-trivial = non-empty map")
 	rec.Sampled()
 	sup.Sampled()
@@ -678,6 +716,17 @@ func TestVerifC16(t *testing.T) {
 			for ns := 0; ns <= 3; ns++ {
 				run(idx, c16Shape{nRecs: n, indent: in, nSupp: ns, maxLett: 2, maxIso: 2, emptyBias: 0, headerN: n % 2})
 				idx++
+			}
+		}
+	}
+	// records with an EMPTY <7> field after records that have supplier letters,
+	// directly and with further empty-<7> records in between (own index range)
+	pidx := 2000000
+	for _, in := range []string{"                ", "\t"} {
+		for _, pat := range patterns {
+			for _, ns := range []int{1, 3, 15} {
+				run(pidx, c16Shape{nRecs: len(pat), indent: in, nSupp: ns, maxLett: ns, maxIso: 2, emptyBias: 0, headerN: len(pat) % 2, pattern: pat})
+				pidx++
 			}
 		}
 	}
